@@ -44,12 +44,15 @@ def runner(v):
     return xyzpy.Runner(functools.partial(fn_version, v), var_names="out", fn_args=("a", "b"))
 
 
-def canon_ds(ds):
-    """Dataset -> sorted [[point, value]] over non-null cells."""
+def canon_ds(ds, var="out", varid=None):
+    """Dataset -> sorted [[point, value]] over non-null cells (of one variable)."""
+    VAR = 100 if varid is None else varid
     if ds is None:
         return None
     out = []
-    da = ds["out"]
+    if var not in ds:
+        return []
+    da = ds[var]
     dims = list(da.dims)
     vals = da.values
     if vals.size == 0:
@@ -363,6 +366,80 @@ def expand_stream(c, tmp, n):
         shutil.rmtree(d, ignore_errors=True)
 
 
+def fn_two(a, b):
+    return fn_version(0, a, b), fn_version(0, a, b) + 7
+
+
+def two_variable_stream(c, tmp, n, pairs, metas):
+    """Harvests into one data name of datasets that carry both, or only one, of two integer variables: every
+    variable is the merge of what was harvested FOR IT (a harvest without it leaves it alone, cells nobody
+    harvested stay missing), memory equals disk cell for cell.  Each variable is compared with the model on its own
+    (a harvest that lacks the variable is a harvest of no points for it)."""
+    import xyzpy
+    VARS = {"out": 100, "aux": 101}
+    for i in range(n):
+        rng = c.rng
+        engine = rng.choice(["h5netcdf", "h5netcdf", "joblib"])
+        d = os.path.join(tmp, f"t{i}")
+        os.makedirs(d)
+        path = os.path.join(d, rng.choice(["data", "data.h5" if engine == "h5netcdf" else "data.dmp"]))
+        both = xyzpy.Runner(fn_two, var_names=("out", "aux"), fn_args=("a", "b"))
+        only = {"out": xyzpy.Runner(lambda a, b: fn_two(a, b)[0], var_names="out", fn_args=("a", "b")),
+                "aux": xyzpy.Runner(lambda a, b: fn_two(a, b)[1], var_names="aux", fn_args=("a", "b"))}
+        h = xyzpy.Harvester(both, data_name=path, engine=engine)
+        steps, mops, obs = [], {v: [] for v in VARS}, {v: [] for v in VARS}
+        want = {v: {} for v in VARS}
+        rep = {"stream": "two-variables", "engine": engine, "name": os.path.basename(path), "steps": steps}
+        for k in range(rng.randint(2, 5)):
+            which = rng.choice(["both", "both", "out", "aux"])
+            a = sorted(rng.sample(range(1, 5), rng.randint(1, 2)))
+            b = sorted(rng.sample(range(5, 8), rng.randint(1, 2)))
+            pol = rng.choice([None, None, True, False])
+            fresh = rng.random() < 0.4
+            steps.append([which, a, b, str(pol), fresh])
+            if fresh:
+                h = xyzpy.Harvester(both, data_name=path, engine=engine)
+                p0 = xyzpy.manage.auto_add_extension(path, engine)
+                f0 = xyzpy.load_ds(path, engine=engine) if os.path.exists(p0) else None
+                for v, vid in VARS.items():
+                    mops[v].append("FOp (HNewSession)")
+                    obs[v].append([False, None, canon_src(f0, v, vid)])
+            ds = (both if which == "both" else only[which]).run_combos({"a": a, "b": b}, verbosity=0)
+            raised = False
+            try:
+                h.add_ds(ds, overwrite=pol)
+            except Exception as e:  # noqa
+                raised = True
+                c.violation("harvest-raised", f"{type(e).__name__}: {str(e)[:150]}", rep)
+            p_ = xyzpy.manage.auto_add_extension(path, engine)
+            fds = xyzpy.load_ds(path, engine=engine) if os.path.exists(p_) else None
+            for v, vid in VARS.items():
+                pts = sorted([[vid, DA, x, DB, y], fn_two(x, y)[0 if v == "out" else 1]] for x in a for y in b) \
+                    if which in ("both", v) else []
+                for kpt, val in pts:
+                    want[v][tuple(kpt)] = val
+                mops[v].append(f"FOp (HAdd {coq_pmap(pts)} true {POL[pol][0]})")
+                mem, fil = canon_src(h._full_ds, v, vid), canon_src(fds, v, vid)
+                obs[v].append([raised, mem, fil])
+                w = sorted([list(kp), val] for kp, val in want[v].items())
+                if not raised and fil != w:
+                    c.violation("disk-not-the-policy-merge", f"variable {v}: file holds {fil}, everything harvested for "
+                                f"it is {w}", rep)
+                elif not raised and mem != fil:
+                    c.violation("memory-differs-from-disk", f"variable {v}: full_ds in memory holds {mem}, the file {fil}", rep)
+        c.case(json.dumps(rep, sort_keys=True), nontrivial=len({s_[0] for s_ in steps}) >= 2)
+        c.count("stream", "two-variables")
+        for v in VARS:
+            model = f'run_harvest_flow gen_flows gen_sites "{path}" {ENG[engine]} [' + "; ".join(mops[v]) + "]"
+            pairs.append((model, obs[v]))
+            metas.append({**rep, "variable": v})
+        shutil.rmtree(d, ignore_errors=True)
+
+
+def canon_src(ds, v, vid):
+    return None if ds is None else canon_ds(ds, v, vid)
+
+
 def run(tier, seed):
     c = core.Check("C05", tier, seed)
     gen_st = core.regen()
@@ -390,6 +467,7 @@ def run(tier, seed):
             c.count("engine", rep["engine"]); c.count("engine_per_call", rep["engine_per_call"]); c.count("name", rep["name"]); c.count("len", len(ops))
             pairs.append((model, obs))
             metas.append(rep)
+        two_variable_stream(c, tmp, 12 if tier == "quick" else 100, pairs, metas)
         bad, _ = core.safe_run_cases(c, "Prelude Grid Names Harvest HarvestFlow HarvestInst GenNames GenHarvest", pairs, chunk=60)
         for i in bad:
             c.obligation_broken("correspondence Model/Harvest.v vs Harvester / save_merge_ds",
